@@ -330,18 +330,19 @@ def union_order(sym, idx, form):
 # ---------------------------------------------------------------------------------------------------
 @obligation('C17','reindex', bounds={'quick':"insert(3 rows quick / 2..4 thorough from a menu of 4 concrete tables) ; index(I1) ; [a query] ; index(I2) with I1 != I2 (5 ordered pairs of {(a),(b),(a,b),(b,a)}; all 12 in the thorough tier) and NO insert in between ; where on a or b with {=,<=,>,in,!=} and a symbolic argument in [-2,7], and groupby on the first level: equal to a scan / to the distinct values",
                                      'thorough':"n<=4"},
-            functions=FUNCS, params=lambda tier: [dict(n=n, i1=i, i2=j) for n in ((3,) if tier == 'quick' else (2,3,4)) for i,j in ([(3,4),(4,3),(1,3),(3,2),(2,1)] if tier == 'quick' else [(i,j) for i in (1,2,3,4) for j in (1,2,3,4) if i != j])],
+            functions=FUNCS, params=lambda tier: [dict(n=n, i1=i, i2=j) for n in ((3,) if tier == 'quick' else (2,3,4)) for i,j in ([(3,4),(4,3),(1,3),(3,2),(2,1)] if tier == 'quick' else [(i,j) for i in (1,2,3,4) for j in (1,2,3,4) if i != j])] + [dict(n=4, i1=0, i2=0, cols1=c1, cols2=c2) for c1,c2 in ((('a','b'),('id','b')), (('b','a'),('id','a')), (('id','b'),('a','b')))],      # a later level keeps its position while an earlier one changes
             budget={'quick':80,'thorough':900})
-def reindex(sym, n, i1, i2):
+def reindex(sym, n, i1, i2, cols1=None, cols2=None):
+    I1 = tuple(cols1) if cols1 else INDEXES[i1]; I2 = tuple(cols2) if cols2 else INDEXES[i2]
     MENU = [[(1,5),(1,6),(2,4),(2,5)], [(0,1),(1,0),(0,0),(1,1)], [(2,1),(1,2),(2,2),(1,1)], [(-1,0),(0,-1),(1,1),(0,0)]]
     rows = [list(r) for r in sym.choice('table', MENU)[:n]]
     for k,r in enumerate(rows): r.append(k)
     t = Table(columns=['a','b','id']).insert([list(r) for r in rows])
-    t.index(*INDEXES[i1])
+    t.index(*I1)
     if sym.flag('query_between'):
         list(t.where(a=0)['id'])
-        if len(INDEXES[i1]) == 2: list(t.groupby(1, 'count'))
-    t.index(*INDEXES[i2])
+        if len(I1) == 2: list(t.groupby(1, 'count'))
+    t.index(*I2)
     trows = [list(r) for r in zip(t['a'],t['b'],t['id'])]
     sym.check(sorted(r[2] for r in trows) == list(range(n)), "re-index dropped or duplicated rows")
     col = sym.choice('col', ['a','b']); ci = 0 if col == 'a' else 1
@@ -351,10 +352,41 @@ def reindex(sym, n, i1, i2):
     got = t.where(**{col: {op: arg}})
     gotids = list(got['id'])
     exp = [r[2] for r in trows if holds(r[ci], op, arg)]
-    sym.check(gotids == exp, f"where {col} {op} after index{INDEXES[i1]} ; index{INDEXES[i2]}: rows {gotids}, a scan gives {exp}")
-    if len(INDEXES[i2]) == 2:
-        li = 0 if INDEXES[i2][0] == 'a' else 1
+    sym.check(gotids == exp, f"where {col} {op} after index{I1} ; index{I2}: rows {gotids}, a scan gives {exp}")
+    if len(I2) == 2:
+        li = {'a':0,'b':1,'id':2}[I2[0]]
         groups = list(t.groupby(1, 'count'))
         counts = {}
         for r in trows: counts[r[li]] = counts.get(r[li], 0) + 1
         sym.check(sorted((tuple(g[0])[0], g[1]) for g in groups) == sorted(counts.items()), f"groupby level 1 after re-index: {groups} but the column has {counts}")
+
+
+@obligation('C17','match_concrete', bounds="NOT symbolic (regular expressions run in C): a 5-row table with a string column; patterns {'cb','^cb','b$','x','v. --'} as {'match': p} and in the positional form, with and without an index on the column, and on a where-of-where view: the rows selected are those in which the pattern is found anywhere in the value (re.search)",
+            functions=FUNCS)
+def match_concrete(sym):
+    import re
+    vals = ['ucb','vw --cb 2','cb','abc','xyz']
+    t = Table(columns=['s','id']).insert([[v,i] for i,v in enumerate(vals)])
+    if sym.flag('indexed'): t.index('s')
+    pat = sym.choice('pattern', ['cb','^cb','b$','x','v. --'])
+    form = sym.choice('form', ['dict','positional','chained'])
+    if form == 'dict': got = t.where(s={'match': pat})
+    elif form == 'positional': got = t.where(None, 'match', s=pat)
+    else: got = t.where(id={'>=':0}).where(s={'match': pat})
+    exp = sorted(i for i,v in enumerate(vals) if re.search(pat, v))
+    sym.check(sorted(got['id']) == exp, f"where s match {pat!r} ({form}) selects ids {sorted(got['id'])}, the pattern is found in {exp}")
+
+@obligation('C17','mixed_forms', bounds="two keyword conditions in one where(), one given with an explicit operator {op: x} (op in {<,<=,>,>=,!=,=}) and the other as a plain value, in both keyword orders, on a 4-row menu table with and without an index on either column; symbolic arguments in [-2,7]: the result is the union (in table order) of 'a op x' and 'b == y'",
+            functions=FUNCS, params=lambda tier: [dict(idx=i) for i in (0,1,2,3)])
+def mixed_forms(sym, idx):
+    MENU = [[(1,5),(1,6),(2,4),(2,5)], [(0,1),(1,0),(0,0),(1,1)], [(-1,0),(0,-1),(1,1),(0,0)]]
+    rows = [list(r)+[k] for k,r in enumerate(sym.choice('table', MENU))]
+    t = Table(columns=['a','b','id']).insert([list(r) for r in rows])
+    if INDEXES[idx]: t.index(*INDEXES[idx])
+    trows = [list(r) for r in zip(t['a'],t['b'],t['id'])]
+    op = sym.choice('op', ['<','<=','>','>=','!=','='])
+    x = sym.int('x', -2, 7); y = sym.int('y', -2, 7)
+    if sym.flag('dict_first'): got = t.where(a={op: x}, b=y)
+    else: got = t.where(b=y, a={op: x})
+    exp = [r[2] for r in trows if holds(r[0], op, x) or r[1] == y]
+    sym.check(list(got['id']) == exp, f"where(a={{'{op}': x}}, b=y) selects {list(got['id'])}, the union of 'a {op} x' and 'b == y' is {exp}")
